@@ -48,6 +48,14 @@ inline std::string spell_name(const std::string &s, const Op &o) {
   if (next() % 2 == 0) run();
   return out; }
 
+// an unknown parameter/vector name derived from a valid one: what a caller gets wrong in practice (padding blanks from a fixed-length buffer,
+// a leading blank, another case, a tab, a truncated name). Names are exact keys: none of these may reach the parameter.
+inline std::string near_name(const std::string &valid, const Op &o) { std::string b;
+  switch ((unsigned)o.idx % 6) { case 0: b = valid + " "; break; case 1: b = " " + valid; break; case 2: b = valid + "   "; break;
+    case 3: b = valid; for (auto &ch : b) ch = (char)toupper((unsigned char)ch); if (b == valid) for (auto &ch : b) ch = (char)tolower((unsigned char)ch); if (b == valid) b += " "; break;
+    case 4: b = valid + "\t"; break; default: b = valid.size() > 1 ? valid.substr(0, valid.size() - 1) : valid + "_"; break; }
+  return b; }
+
 struct Failure { std::string prop, msg; int step; };
 
 template <class Scalar> inline bool biteq(Scalar a, Scalar b) { return memcmp(&a, &b, sizeof(Scalar) > 8 ? 10 : 8) == 0; }
@@ -64,7 +72,7 @@ template <class Scalar> Scalar decode_value(uint64_t r) {
     case 3: v = (Scalar)(-1e-300L * (0.5L + u)); break;
     case 4: v = std::numeric_limits<Scalar>::denorm_min() * (Scalar)(1 + (r >> 8) % 1000); break;
     case 5: v = (r & 0x100) ? (Scalar)0.0 : -(Scalar)0.0; break;
-    case 6: v = (Scalar)-12345.67; break;                       // exactly the marker
+    case 6: v = (r & 0x200) ? (Scalar)12345.67 : (Scalar)-12345.67; break;   // exactly the marker, or its mirror image (an ordinary value)
     case 7: v = (Scalar)-1.33; break;                           // the unimplemented-evaluator sentinel is an ordinary value for a parameter
     case 8: v = (Scalar)-20; break;                             // so is the unknown-name return value
     case 9: v = (Scalar)(0.5L + 2.5L * u); break;
@@ -99,7 +107,9 @@ struct History {
   // handle of an init operation: ten fixed strings, plus two slots that produce a handle spelled exactly like a catalogue name (the idiom of the
   // library's own tests, masa_init("euler_1d","euler_1d")): slot 10 names the handle after the solution of this call; slot 11 looks for a live
   // handle that is spelled like its own solution and initialises ANOTHER handle with that same solution (s is redirected), else behaves like slot 10
-  template <class RegT> std::string init_handle(const Op &o, std::string &s, const RegT &R) { unsigned k = (unsigned)o.h % (NHANDLES + 2); if (k < (unsigned)NHANDLES) return HANDLES[k];
+  template <class RegT> std::string init_handle(const Op &o, std::string &s, const RegT &R) { unsigned k = (unsigned)o.h % (NHANDLES + 2);
+    // one init in eight uses a family of look-alike handles: equal as numbers but not as strings, equal once blanks are dropped, ordered differently as numbers and as strings
+    static const char *const twins[] = {"run1", "run01", "run 1", "h2", "h10", "h 2"}; if ((unsigned)o.p % 8 == 7) { cls["init_look_alike_handle"]++; return twins[((unsigned)o.idx / 2) % 6]; } if (k < (unsigned)NHANDLES) return HANDLES[k];
     if (k == (unsigned)NHANDLES + 1) for (auto &kv : R.handles) if (kv.first == kv.second.name && std::find(cfg.catalogue.begin(), cfg.catalogue.end(), kv.first) != cfg.catalogue.end()) { s = kv.first; cls["init_other_handle_with_solution_of_name_like_handle"]++; return HANDLES[(unsigned)o.idx % NHANDLES]; }
     cls["init_handle_spelled_like_solution"]++; return s; }
 
@@ -140,6 +150,7 @@ struct History {
   template <class Scalar> void check_list(int P, const std::string &prop, const std::string &ctx) { Registry &R = reg[P]; Quiet q; MASA::masa_list_mms<Scalar>(); std::string out = q.str(); std::stringstream ss(out); std::string line; std::vector<std::pair<std::string, std::string>> got; long n = -1;
     while (std::getline(ss, line)) { if (line.rfind("Number of initialized solutions: ", 0) == 0) { n = atol(line.c_str() + 33); continue; } auto p = line.rfind(" : "); if (p != std::string::npos) got.push_back({line.substr(0, p), line.substr(p + 3)}); }
     std::vector<std::pair<std::string, std::string>> want; for (auto &kv : R.handles) want.push_back({kv.first, kv.second.name});
+    std::sort(got.begin(), got.end()); std::sort(want.begin(), want.end());   // the property speaks of the SET of registered handles; the order of the listing is not specified
     if (n != (long)want.size() || got != want) { std::string g; for (auto &x : got) g += "'" + x.first + "':" + x.second + " "; std::string w; for (auto &x : want) w += "'" + x.first + "':" + x.second + " "; fail(prop, ctx + ": masa_list_mms reports " + std::to_string(n) + " [" + g + "] but the registered handles are " + std::to_string(want.size()) + " [" + w + "]"); } }
 
   // ---------------------------------------------------------------- the fresh-handle oracle for evaluations
@@ -189,7 +200,7 @@ struct History {
   // ---------------------------------------------------------------- one step
   template <class Scalar> void step_cpp(const Op &o) { int P = sizeof(Scalar) > 8; Registry &R = reg[P]; using namespace MASA;
     auto selm = [&]() -> SolModel * { return R.has_selected ? &R.handles[R.selected] : nullptr; };
-    auto pname = [&](SolModel *m, bool &valid) -> std::string { valid = true; if (!m || m->params.empty() || o.n % 7 == 0) { valid = false; static const char *bad[] = {"", "no_such_parameter", "A_X", "gamma ", " L", "k_00"}; std::string b = bad[(unsigned)o.p % 6]; if (m) for (auto &kv : m->params) if (kv.first == b) b += "_"; return b; } return m->params[(unsigned)o.p % m->params.size()].first; };
+    auto pname = [&](SolModel *m, bool &valid) -> std::string { valid = true; if (!m || m->params.empty() || o.n % 7 == 0) { valid = false; static const char *bad[] = {"", "no_such_parameter", "A_X", "gamma ", " L", "k_00"}; std::string b = bad[(unsigned)o.p % 6]; if (m && !m->params.empty() && (unsigned)o.api % 2 == 0) { b = near_name(m->params[(unsigned)o.p % m->params.size()].first, o); cls["unknown_name_derived_from_a_valid_one"]++; } if (m) for (auto &kv : m->params) if (kv.first == b) b += "_"; return b; } return m->params[(unsigned)o.p % m->params.size()].first; };
     switch (o.code) {
       case OP_INIT: { std::string s = cfg.catalogue[(unsigned)o.s % cfg.catalogue.size()]; std::string h = init_handle(o, s, R); std::string sp = spell_name(s, o); trace.back() += " '" + h + "' <- " + s + (sp != s ? " spelled '" + sp + "'" : ""); if (sp != s) cls["init_decorated_name"]++; bool re = R.handles.count(h); if (re) cls["reinit_existing_handle"]++; if (re && R.handles[h].name == s) cls["reinit_same_type"]++;
           for (auto &kv : R.handles) if (kv.first != h && kv.second.name == s) cls["two_handles_same_type"]++;
@@ -198,7 +209,10 @@ struct History {
           std::string nm; { Quiet q; masa_get_name<Scalar>(&nm); } if (nm != s) fail("C12", "after masa_init('" + h + "','" + s + "') masa_get_name returns '" + nm + "'"); break; }
       case OP_SELECT: { if (R.handles.empty()) break; auto it = R.handles.begin(); std::advance(it, (unsigned)o.h % R.handles.size()); trace.back() += " '" + it->first + "'"; int rc; { Quiet q; rc = masa_select_mms<Scalar>(it->first); } if (rc != 0) fail("C12", "masa_select_mms returned " + std::to_string(rc)); if (R.selected != it->first) cls["select_other_handle"]++; R.selected = it->first; R.has_selected = true;
           std::string nm; { Quiet q; masa_get_name<Scalar>(&nm); } if (nm != it->second.name) fail("C12", "after selecting '" + it->first + "' masa_get_name returns '" + nm + "', expected " + it->second.name); break; }
-      case OP_SET: { SolModel *m = selm(); if (!m) break; bool valid; std::string n = pname(m, valid); Scalar v = decode_value<Scalar>(o.v[0]); trace.back() += " " + n + " = " + decld(v); { Quiet q; masa_set_param<Scalar>(n, v); if (!valid && q.str().find("MASA ERROR") == std::string::npos) fail("C11", "setting unknown parameter '" + n + "' printed no error"); }
+      case OP_SET: { SolModel *m = selm(); if (!m) break; bool valid; std::string n = pname(m, valid); Scalar v = decode_value<Scalar>(o.v[0]);
+          // one valid set in eight moves the parameter by a single unit in the last place (or by 2^-40 relative): "almost the same value" is a different value
+          if (valid && (unsigned)o.idx % 8 == 3) for (auto &kv : m->params) if (kv.first == n) { Scalar cur = (Scalar)kv.second; if (std::isfinite(cur) && !biteq<Scalar>(cur, (Scalar)-12345.67)) { Scalar nv = ((unsigned)o.idx / 8) % 2 ? std::nextafter(cur, (Scalar)INFINITY) : (Scalar)(cur * (1 + (Scalar)0x1p-40)); if (std::isfinite(nv) && !(std::fabs((nv + (Scalar)12345.67) / (Scalar)12345.67) < (Scalar)1e-9)) { v = nv; cls["set_nudged_value"]++; } } }
+          trace.back() += " " + n + " = " + decld(v); { Quiet q; masa_set_param<Scalar>(n, v); if (!valid && q.str().find("MASA ERROR") == std::string::npos) fail("C11", "setting unknown parameter '" + n + "' printed no error"); }
           if (valid) { for (auto &kv : m->params) if (kv.first == n) kv.second = (long double)v; cls["set_valid"]++; if (biteq<Scalar>(v, (Scalar)-12345.67)) cls["set_marker_value"]++; } else cls["set_invalid_name"]++;
           check_selected<Scalar>(P, "C11", "after masa_set_param('" + n + "')"); break; }
       case OP_GET: { SolModel *m = selm(); if (!m) break; bool valid; std::string n = pname(m, valid); trace.back() += " " + n; Scalar g; { Quiet q; g = masa_get_param<Scalar>(n); }
@@ -216,10 +230,10 @@ struct History {
             if (n != m->params[k].first) fail("C11", "masa_display_param lists '" + n + "' where the model has '" + m->params[k].first + "'"); else if (mk != (val == "Uninitialized")) fail("C11", "masa_display_param shows '" + val + "' for " + n + " whose value is " + decld(want));
             else if (!mk) { long double shown = strtold(val.c_str(), 0); if (!(fabsl(shown - want) <= 1e-14L * fabsl(want) + 1e-320L) && !(std::isinf((double)shown) && fabsl(want) > 1e300L)) fail("C11", "masa_display_param shows " + val + " for " + n + " = " + decld(want)); } k++; }
           if (k != m->params.size()) fail("C11", "masa_display_param listed " + std::to_string(k) + " parameters, the model has " + std::to_string(m->params.size())); break; }
-      case OP_SETVEC: { SolModel *m = selm(); if (!m) break; bool valid = !m->vecs.empty() && o.n % 5 != 0; std::string n = "no_such_vector"; if (valid) { auto it = m->vecs.begin(); std::advance(it, (unsigned)o.p % m->vecs.size()); n = it->first; } int len = (unsigned)o.idx % 51; if (o.n % 4 == 1) len = 0; if (o.n % 16 == 3) len = 1000 + 17 * ((unsigned)o.idx % 251); /* one vector in sixteen is long (1000..5250 entries) */ std::vector<Scalar> v; for (int i = 0; i < len; i++) v.push_back(decode_value<Scalar>(mix64(o.v[0] + i)));
+      case OP_SETVEC: { SolModel *m = selm(); if (!m) break; bool valid = !m->vecs.empty() && o.n % 5 != 0; std::string n = "no_such_vector"; if (!m->vecs.empty()) { auto it = m->vecs.begin(); std::advance(it, (unsigned)o.p % m->vecs.size()); if (valid) n = it->first; else if ((unsigned)o.api % 2 == 0) { n = near_name(it->first, o); if (m->vecs.count(n)) n += "_"; cls["unknown_name_derived_from_a_valid_one"]++; } } int len = (unsigned)o.idx % 51; if (o.n % 4 == 1) len = 0; if (o.n % 16 == 3) len = 1000 + 17 * ((unsigned)o.idx % 251); /* one vector in sixteen is long (1000..5250 entries) */ std::vector<Scalar> v; for (int i = 0; i < len; i++) v.push_back(decode_value<Scalar>(mix64(o.v[0] + i)));
           trace.back() += " " + n + " len=" + std::to_string(len); { Quiet q; masa_set_vec<Scalar>(n, v); } if (valid) { std::vector<long double> w(v.begin(), v.end()); if (w.size() != m->vecs[n].size()) cls["vector_length_change"]++; if (len == 0) cls["vector_emptied"]++; m->vecs[n] = w; cls["set_vec"]++; } else cls["set_vec_invalid_name"]++;
           check_selected<Scalar>(P, "C11", "after masa_set_vec('" + n + "')"); break; }
-      case OP_GETVEC: { SolModel *m = selm(); if (!m) break; bool valid = !m->vecs.empty() && o.n % 5 != 0; std::string n = "no_such_vector"; if (valid) { auto it = m->vecs.begin(); std::advance(it, (unsigned)o.p % m->vecs.size()); n = it->first; } std::vector<Scalar> v(3, (Scalar)7); int rc; { Quiet q; rc = masa_get_vec<Scalar>(n, v); }
+      case OP_GETVEC: { SolModel *m = selm(); if (!m) break; bool valid = !m->vecs.empty() && o.n % 5 != 0; std::string n = "no_such_vector"; if (!m->vecs.empty()) { auto it = m->vecs.begin(); std::advance(it, (unsigned)o.p % m->vecs.size()); if (valid) n = it->first; else if ((unsigned)o.api % 2 == 0) { n = near_name(it->first, o); if (m->vecs.count(n)) n += "_"; cls["unknown_name_derived_from_a_valid_one"]++; } } std::vector<Scalar> v(3, (Scalar)7); int rc; { Quiet q; rc = masa_get_vec<Scalar>(n, v); }
           if (valid) { auto &w = m->vecs[n]; bool ok = rc == 0 && v.size() == w.size(); for (size_t i = 0; ok && i < w.size(); i++) ok = biteq<Scalar>(v[i], (Scalar)w[i]); if (!ok) fail("C11", "masa_get_vec('" + n + "') does not return the vector last set (length " + std::to_string(v.size()) + " vs " + std::to_string(w.size()) + ", status " + std::to_string(rc) + ")"); cls["get_vec"]++; }
           else { if (rc == 0) fail("C11", "masa_get_vec of an unknown name reports success"); if (v.size() != 3) fail("C11", "masa_get_vec of an unknown name modified the caller's vector"); } break; }
       case OP_DISPVEC: { SolModel *m = selm(); if (!m) break; std::string out; { Quiet q; masa_display_vec<Scalar>(); out = q.str(); } for (auto &kv : m->vecs) if (out.find(kv.first + " is size: " + std::to_string(kv.second.size()) + "\n") == std::string::npos) fail("C11", "masa_display_vec does not show " + kv.first + " with size " + std::to_string(kv.second.size())); break; }
@@ -244,20 +258,21 @@ struct History {
       case OP_CINIT: { std::string s = cfg.catalogue[(unsigned)o.s % cfg.catalogue.size()]; std::string h = init_handle(o, s, R); std::string sp = spell_name(s, o); trace.back() += " '" + h + "' <- " + s + (sp != s ? " spelled '" + sp + "'" : ""); if (sp != s) cls["init_decorated_name"]++; int rc; { Quiet q; rc = ::masa_init(h.c_str(), sp.c_str()); } if (rc != 0) fail("C17", "C masa_init returned " + std::to_string(rc));
           R.selected = h; R.has_selected = true; R.handles[h] = fresh_model<double>(0, s); std::string nm; { Quiet q; masa_get_name<double>(&nm); } if (nm != s) fail("C17", "C masa_init('" + h + "','" + s + "') selected '" + nm + "' in the double registry"); cls["c_init"]++; break; }
       case OP_CSELECT: { if (R.handles.empty()) break; auto it = R.handles.begin(); std::advance(it, (unsigned)o.h % R.handles.size()); int rc; { Quiet q; rc = ::masa_select_mms(it->first.c_str()); } R.selected = it->first; R.has_selected = true; std::string nm; { Quiet q; masa_get_name<double>(&nm); } if (nm != it->second.name || rc != 0) fail("C17", "C masa_select_mms('" + it->first + "') did not select that handle of the double registry"); break; }
-      case OP_CSET: { SolModel *m = selm(); if (!m || m->params.empty()) break; bool valid = o.n % 7 != 0; std::string n = valid ? m->params[(unsigned)o.p % m->params.size()].first : "no_such_parameter"; double v = decode_value<double>(o.v[0]); { Quiet q; ::masa_set_param(n.c_str(), v); } if (valid) for (auto &kv : m->params) if (kv.first == n) kv.second = v; cls["c_set"]++;
+      case OP_CSET: { SolModel *m = selm(); if (!m || m->params.empty()) break; bool valid = o.n % 7 != 0; std::string n = m->params[(unsigned)o.p % m->params.size()].first; if (!valid) { if ((unsigned)o.api % 2 == 0) { n = near_name(n, o); for (auto &kv : m->params) if (kv.first == n) n += "_"; cls["unknown_name_derived_from_a_valid_one"]++; } else n = "no_such_parameter"; } double v = decode_value<double>(o.v[0]); if (valid && (unsigned)o.idx % 8 == 3) for (auto &kv : m->params) if (kv.first == n) { double cur = (double)kv.second; if (std::isfinite(cur) && !biteq<double>(cur, -12345.67)) { double nv = std::nextafter(cur, INFINITY); if (std::isfinite(nv) && !(std::fabs((nv + 12345.67) / 12345.67) < 1e-9)) { v = nv; cls["set_nudged_value"]++; } } }
+          { Quiet q; ::masa_set_param(n.c_str(), v); } if (valid) for (auto &kv : m->params) if (kv.first == n) kv.second = v; cls["c_set"]++;
           check_selected<double>(0, "C17", "after C masa_set_param('" + n + "') the C++ view"); break; }
-      case OP_CGET: { SolModel *m = selm(); if (!m || m->params.empty()) break; bool valid = o.n % 7 != 0; std::string n = valid ? m->params[(unsigned)o.p % m->params.size()].first : "no_such_parameter"; double a, b; { Quiet q; a = ::masa_get_param(n.c_str()); b = masa_get_param<double>(n); } if (!biteq<double>(a, b)) fail("C17", "C masa_get_param('" + n + "') = " + decld(a) + ", C++ = " + decld(b)); cls["c_get"]++; break; }
+      case OP_CGET: { SolModel *m = selm(); if (!m || m->params.empty()) break; bool valid = o.n % 7 != 0; std::string n = m->params[(unsigned)o.p % m->params.size()].first; if (!valid) { if ((unsigned)o.api % 2 == 0) { n = near_name(n, o); for (auto &kv : m->params) if (kv.first == n) n += "_"; cls["unknown_name_derived_from_a_valid_one"]++; } else n = "no_such_parameter"; } double a, b; { Quiet q; a = ::masa_get_param(n.c_str()); b = masa_get_param<double>(n); } if (!biteq<double>(a, b)) fail("C17", "C masa_get_param('" + n + "') = " + decld(a) + ", C++ = " + decld(b)); cls["c_get"]++; break; }
       case OP_CINITP: { SolModel *m = selm(); if (!m) break; int a, b; { Quiet q; a = ::masa_init_param(); } { Quiet q; b = masa_init_param<double>(); } bool fixture = m->name == "masa_test_function" || m->name == "masa_uninit"; if (fixture) { *m = snapshot_selected<double>(m->name); } else { const SolModel &d = defaults[0][m->name]; m->params = d.params; for (auto &kv : d.vecs) m->vecs[kv.first] = kv.second; } if (a != b) fail("C17", "C masa_init_param returned " + std::to_string(a) + ", the C++ call reports " + std::to_string(b) + " (" + m->name + ")"); cls[b ? "c_initparam_nonzero_status" : "c_initparam_zero_status"]++; check_selected<double>(0, "C17", "after C masa_init_param"); break; }
       case OP_CPURGE: { SolModel *m = selm(); if (!m) break; { Quiet q; ::masa_purge_default_param(); } for (auto &kv : m->params) kv.second = -12345.67; check_selected<double>(0, "C17", "after C masa_purge_default_param"); break; }
       case OP_CSANITY: { SolModel *m = selm(); if (!m) break; int a, b; try { { Quiet q; a = ::masa_sanity_check(); } { Quiet q; b = masa_sanity_check<double>(); } } catch (int) { break; } if (a != b) fail("C17", "C masa_sanity_check returned " + std::to_string(a) + ", the C++ call reports " + std::to_string(b) + " (" + m->name + ")"); cls[b ? "c_sanity_nonzero_status" : "c_sanity_zero_status"]++; break; }
       case OP_CDISPLAY: { if (!selm()) break; std::string a, b; { Quiet q; ::masa_display_param(); a = q.str(); } { Quiet q; masa_display_param<double>(); b = q.str(); } if (a != b) fail("C17", "C masa_display_param prints something different from the C++ call"); break; }
       case OP_CDISPARR: { if (!selm()) break; std::string a, b; { Quiet q; ::masa_display_array(); a = q.str(); } { Quiet q; masa_display_vec<double>(); b = q.str(); } if (a != b) fail("C17", "C masa_display_array prints something different from masa_display_vec<double>"); break; }
-      case OP_CSETARR: { SolModel *m = selm(); if (!m) break; bool valid = !m->vecs.empty() && o.n % 5 != 0; std::string n = "no_such_vector"; if (valid) { auto it = m->vecs.begin(); std::advance(it, (unsigned)o.p % m->vecs.size()); n = it->first; } int len = (unsigned)o.idx % 51; if (o.n % 4 == 1) len = 0; if (o.n % 16 == 3) len = 1000 + 17 * ((unsigned)o.idx % 251);
+      case OP_CSETARR: { SolModel *m = selm(); if (!m) break; bool valid = !m->vecs.empty() && o.n % 5 != 0; std::string n = "no_such_vector"; if (!m->vecs.empty()) { auto it = m->vecs.begin(); std::advance(it, (unsigned)o.p % m->vecs.size()); if (valid) n = it->first; else if ((unsigned)o.api % 2 == 0) { n = near_name(it->first, o); if (m->vecs.count(n)) n += "_"; cls["unknown_name_derived_from_a_valid_one"]++; } } int len = (unsigned)o.idx % 51; if (o.n % 4 == 1) len = 0; if (o.n % 16 == 3) len = 1000 + 17 * ((unsigned)o.idx % 251);
           // exact-size heap buffer so that AddressSanitizer sees any access beyond the announced length
           double *buf = (double *)malloc(sizeof(double) * (len ? len : 1)); for (int i = 0; i < len; i++) buf[i] = decode_value<double>(mix64(o.v[0] + i)); int nn = len; { Quiet q; ::masa_set_array(n.c_str(), &nn, buf); }
           if (nn != len) fail("C17", "C masa_set_array changed *n"); if (valid) { std::vector<long double> w(buf, buf + len); if (len == 0) cls["c_array_length_0"]++; m->vecs[n] = w; cls["c_set_array"]++; } free(buf);
           check_selected<double>(0, "C17", "after C masa_set_array('" + n + "', n=" + std::to_string(len) + ") the C++ view"); break; }
-      case OP_CGETARR: { SolModel *m = selm(); if (!m) break; bool valid = !m->vecs.empty() && o.n % 5 != 0; std::string n = "no_such_vector"; if (valid) { auto it = m->vecs.begin(); std::advance(it, (unsigned)o.p % m->vecs.size()); n = it->first; }
+      case OP_CGETARR: { SolModel *m = selm(); if (!m) break; bool valid = !m->vecs.empty() && o.n % 5 != 0; std::string n = "no_such_vector"; if (!m->vecs.empty()) { auto it = m->vecs.begin(); std::advance(it, (unsigned)o.p % m->vecs.size()); if (valid) n = it->first; else if ((unsigned)o.api % 2 == 0) { n = near_name(it->first, o); if (m->vecs.count(n)) n += "_"; cls["unknown_name_derived_from_a_valid_one"]++; } }
           std::vector<double> ref; int rcpp; { Quiet q; rcpp = masa_get_vec<double>(n, ref); } size_t cap = valid ? ref.size() : 4; double *buf = (double *)malloc(sizeof(double) * (cap ? cap : 1)); for (size_t i = 0; i < cap; i++) buf[i] = 777.0; int nn = -5; int rc; { Quiet q; rc = ::masa_get_array(n.c_str(), &nn, buf); }
           if (rc != rcpp) fail("C17", "C masa_get_array('" + n + "') returned status " + std::to_string(rc) + ", masa_get_vec<double> reports " + std::to_string(rcpp)); cls[rcpp ? "c_get_array_nonzero_status" : "c_get_array_zero_status"]++;
           if (valid) { if (nn != (int)ref.size()) fail("C17", "C masa_get_array('" + n + "') reports length " + std::to_string(nn) + ", the vector has " + std::to_string(ref.size())); else for (size_t i = 0; i < ref.size(); i++) if (!biteq<double>(buf[i], ref[i])) { fail("C17", "C masa_get_array('" + n + "')[" + std::to_string(i) + "] differs from masa_get_vec<double>"); break; } }
